@@ -497,6 +497,10 @@ def check_counts(prop, tier):
                     if rule in ('meek', 'warren') and opts.get('arithmetic') == 'rational':
                         skipped['budget (meek/warren rational: not explored)'] += 1
                         continue
+                    # a busy machine is not a hanging count: only a count that also exceeds a much larger budget is reported
+                    T = drive.run_count(blt, opts, lowprec=lp, iters=(prop == 'C08'), budget=budget * 12,
+                                        want_ballots=(prop in ('C02', 'C06', 'C01')), denote=pr)
+                    skipped['first attempt exceeded the time budget (re-run with 12x)'] += 1
                 Nt = drive.to_native(T)
                 if Nt is None:
                     skipped['not encodable in 32-bit integers (%s %s)' % (rule, T.get('kind'))] += 1
@@ -767,12 +771,20 @@ META_LEMMA = {'C07': [('TieIndependent', 'C07e', {})], 'C10': [('PresentationInd
               'C11': [('Neutral', 'C11a', {}), ('WithdrawnAbsent', 'C11b', dict(nc=4, ties=[(1, 2, 3, 4), (4, 2, 1, 3)], wds=((2,), (4,), (1, 3))))]}
 
 
+SIM_LEMMA_SCOPE = dict(nc=4, maxb=40, maxm=15, seatset=(1, 2, 3), ties=[(1, 2, 3, 4), (4, 2, 1, 3), (3, 1, 4, 2)], wds=((), (2,), (1, 4)))
+
+
 def model_meta_stage(R, prop, tier):
     for lemma, rel, over in META_LEMMA[prop]:
         model_meta_lemma(R, prop, tier, lemma, rel, over)
+        # the same lemma on random elections of a scope too large to enumerate (TLC simulation, all 18 configurations)
+        sim = dict(SIM_LEMMA_SCOPE)
+        if lemma == 'WithdrawnAbsent':
+            sim['wds'] = ((2,), (1, 4), (3,))
+        model_meta_lemma(R, prop, tier, lemma, rel, sim, simulate='num=%d' % (120 if tier == 'quick' else 2500))
 
 
-def model_meta_lemma(R, prop, tier, lemma, rel, over):
+def model_meta_lemma(R, prop, tier, lemma, rel, over, simulate=None):
     """
     (M) the metamorphic lemma at design level: the specification's count as a function (`Run') is evaluated on both members of
     every pair of the bounded scope inside one TLC invariant.  A counterexample is replayed into the real code as a pair.
@@ -780,15 +792,21 @@ def model_meta_lemma(R, prop, tier, lemma, rel, over):
     cfgs = [model.STATUTORY_CFG['wigm-prf'], model.STATUTORY_CFG['scotland'], model.STATUTORY_CFG['cfer-batch'], model.STATUTORY_CFG['mpls'],
             model.cfgrec('meek', p=3, omega10=2, batch='safe'), model.cfgrec('qpq', kind='guarded', p=3, g=2),
             model.cfgrec('wigm', p=2, batch='zero')]
-    if tier == 'thorough':
+    if tier == 'thorough' or simulate:
         cfgs = model_configs()
     sc = dict(nc=3, maxb=3 if tier == 'quick' else 4, maxm=2, seatset=(1, 2), ties=[(1, 2, 3), (3, 1, 2)])
     sc.update(over)
-    res = model.mc_run(cfgs, check=[], lemmas=[lemma], timeout=600 if tier == 'quick' else 3000, **sc)
+    res = model.mc_run(cfgs, check=[], lemmas=[lemma], timeout=600 if tier == 'quick' else 3000, simulate=simulate,
+                       extra=(['-depth', '60', '-seed', str(vlib.seed() * 104729 + 5)] if simulate else []), **sc)
     R.add_tlc(res)
     iv = model.invariant_violation(res['out'])
-    R.stage('model-check lemma ' + lemma, scope=str(sc), configs=[c['rule'] for c in cfgs], distinct_states=res['distinct'],
-            wall_s=round(res['wall'], 1), invariant_violated=iv[0] if iv else None)
+    if simulate:
+        m = re.search(r'(\d+) states checked, (\d+) traces generated', res['out'])
+        R.stage('simulate lemma ' + lemma, scope=str(sc), traces=int(m.group(2)) if m else None, wall_s=round(res['wall'], 1),
+                timed_out=bool(res.get('timeout')), invariant_violated=iv[0] if iv else None)
+    else:
+        R.stage('model-check lemma ' + lemma, scope=str(sc), configs=[c['rule'] for c in cfgs], distinct_states=res['distinct'],
+                wall_s=round(res['wall'], 1), invariant_violated=iv[0] if iv else None)
     if iv:
         pl = [p for k, p in model.fails_of(res['out']) if k == 'METAFAIL']
         if not pl:
